@@ -521,6 +521,31 @@ pub fn run(run: &mut Run) -> Finish {
             l.case(true, h64(&(which, k)));
         });
     }
+    // V5: an entry of another JSON type inside `names` (what it reads as is not asserted) must not
+    // move the string entries: tokens naming index 0 and index 2 still resolve to "x" and "y"
+    run.seq_slice("V5: names [\"x\", E, \"y\"] for E in {null, true, false, {}, [], [1]}: the string entries keep their indices", 9, |base, l| {
+        for (j, odd) in ["null", "true", "false", "{}", "[]", "[1]"].iter().enumerate() {
+            let doc = format!("{{\"version\":3,\"sources\":[\"a\"],\"names\":[\"x\",{odd},\"y\"],\"mappings\":\"AAAAA,CAAAE\"}}");
+            let case = json!({"kind": "odd-name", "document": doc});
+            let r = guarded(|| -> Option<String> {
+                let sm = match sourcemap::SourceMap::from_slice(doc.as_bytes()) {
+                    Ok(sm) => sm,
+                    Err(e) => return Some(format!("rejected: {e}")),
+                };
+                let got: Vec<Option<String>> = sm.tokens().map(|t| t.get_name().map(str::to_string)).collect();
+                if got != vec![Some("x".to_string()), Some("y".to_string())] {
+                    return Some(format!("token names {got:?}, expected [\"x\", \"y\"] (name table {:?})", sm.names().collect::<Vec<_>>()));
+                }
+                None
+            });
+            match r {
+                Ok(None) => {}
+                Ok(Some(w)) => l.violation_sub(base, j as u64, Viol::new("C02/names/string-entries-shifted", format!("{w}\ndocument: {doc}"), case)),
+                Err(p) => l.violation_sub(base, j as u64, Viol::new(format!("C02/panic/{}", panic_class(&p)), format!("{p}\ndocument: {doc}"), case)),
+            }
+            l.case(true, h64(&("odd-name", j)));
+        }
+    });
     Finish {
         level: "exploration",
         rule: "E1: documents written from abstract mapping models by an independent writer (own VLQ, own delta logic, empty segments and lines, unsorted columns) are decoded by decode_slice, decode(reader) and the typed from_slice entry points and compared with the model: line = number of preceding ';', column resets per line, source/line/column/name accumulate globally, 1-field segments have no source or name, output ordered by position (ties as multiset), kind by sections / x_facebook_sources, null sources -> \"\", numeric names -> decimal text, debug_id over debugId, sourceRoot join rule. Slices L1 (every structure), L2 (every delta combination of the menu on two segments), K (every optional-key subset x key orders x junk headers), V (lenient values). Distinct by construction; non-trivial = at least one token / one optional key; class = structure or key subset.".into(),
@@ -541,6 +566,14 @@ pub fn recheck(case: &Value) -> Vec<Viol> {
             let Ok(m) = serde_json::from_value::<RMap>(case["model"].clone()) else { return vec![] };
             let tag = case["tag"].as_str().unwrap_or("extreme-coordinates").to_string();
             check_doc(rv3_write(&m).as_bytes(), Kind::Regular, Some(&m.obs()), &tag).map(|(s, w)| Viol::new(format!("C02/{s}"), w, case.clone())).into_iter().collect()
+        }
+        Some("odd-name") => {
+            let doc = case["document"].as_str().unwrap_or("");
+            match guarded(|| sourcemap::SourceMap::from_slice(doc.as_bytes()).ok().map(|sm| sm.tokens().map(|t| t.get_name().map(str::to_string)).collect::<Vec<_>>())) {
+                Ok(Some(got)) if got == vec![Some("x".to_string()), Some("y".to_string())] => vec![],
+                Ok(_) => vec![Viol::new("C02/names/string-entries-shifted", "re-run".to_string(), case.clone())],
+                Err(p) => vec![Viol::new(format!("C02/panic/{}", panic_class(&p)), p, case.clone())],
+            }
         }
         Some("lenient") => check_v(case["which"].as_u64().unwrap_or(0) as usize, case["k"].as_u64().unwrap_or(0)).into_iter().collect(),
         _ => vec![],
